@@ -1,7 +1,7 @@
 #!/bin/sh
 # tools/benign_sweep.sh <dir-with-NN/patch.diff> "<props>"  - to be run with VERIF_REPO pointing at a scratch copy of /repo:
 # applies each behaviour-preserving patch in turn, runs the quick checks, reverts.  Any VIOLATION here is a false alarm.
-dir="$1"; props="$2"
+dir=$(cd "$1" && pwd); props="$2"
 for d in "$dir"/*/; do
   n=$(basename "$d")
   if ! (cd "$VERIF_REPO" && patch -p1 -s < "$d/patch.diff"); then echo "benign=$n patch failed"; continue; fi
